@@ -668,7 +668,7 @@ class C17Oracle(BaseOracle):
                     return self.v("fault-swallowed", "injected %s at %s#%d did not propagate out of explain_one"
                                   % (type(w.fired).__name__, f["kind"], f["k"]), explainer=k, cls=ecfg["cls"],
                                   fault_kind=f["kind"], where=where)
-                if ctx.exc is not w.fired:
+                if not _in_chain(ctx.exc, w.fired):
                     return self.v("fault-replaced", "explain_one raised %r instead of the injected %r"
                                   % (ctx.exc, w.fired), explainer=k, cls=ecfg["cls"], fault_kind=f["kind"], where=where)
             after = estimates_snapshot(e, ecfg)
@@ -693,6 +693,16 @@ class C17Oracle(BaseOracle):
             for name, n in sub.probes.items():
                 self.probes["sub:" + name] = n
         return None
+
+
+def _in_chain(exc, target):
+    seen = 0
+    while exc is not None and seen < 10:
+        if exc is target:
+            return True
+        exc = exc.__cause__ or exc.__context__
+        seen += 1
+    return False
 
 
 def fault_position(events, f):
@@ -757,8 +767,6 @@ class C06InExplainerOracle(BaseOracle):
             if not any(p == o for o in outs):
                 return self.v("prediction-not-model-output", "prediction %r is not an output of an evaluated input" % (p,),
                               cls=name)
-        if kind != "default" and len(c["inputs"]) != n:
-            return self.v("evaluation-count", "%d model evaluations for n_samples=%d" % (len(c["inputs"]), n), cls=name)
         rows = c["rows"][0] if c["rows"] else []
         for inp, out in c["inputs"]:
             if set(inp.keys()) != set(x.keys()):
